@@ -82,6 +82,10 @@ fn targeted_list(r: &mut Rng) -> (Vec<String>, gen::Req) {
         if r.chance(1, 8) {
             opts.push(format!("domain={}", r.ps(gen::HOSTS)));
         }
+        if r.chance(1, 10) && !opts.iter().any(|o| o.starts_with("tag=")) {
+            // a redirect modifier does not change what kind of rule this is
+            opts.push(format!("{}={}", r.ps(&["redirect", "redirect-rule"]), r.ps(&["noop.js", "1x1.gif"])));
+        }
         if !opts.is_empty() {
             line.push('$');
             line.push_str(&opts.join(","));
@@ -136,6 +140,20 @@ fn spec(ctx: &mut Ctx) {
             e.use_tags(&tags);
             let mut scan = Scan::new(&rules, opts);
             let mut evs = vec![];
+            // the same list added one rule at a time ($badfilter rules cannot be added that way)
+            let live = if rules.iter().any(|l| l.contains("badfilter")) {
+                None
+            } else {
+                let mut b = adblock::blocker::Blocker::new(vec![], &adblock::blocker::BlockerOptions { enable_optimizations: false });
+                for line in &rules {
+                    let (mut nf, _) = adblock::lists::parse_filters([line], true, opts);
+                    if let Some(f) = nf.pop() {
+                        let _ = b.add_filter(f);
+                    }
+                }
+                b.use_tags(&tags);
+                Some((b, adblock::resources::ResourceStorage::from_resources(gen::standard_resources().iter().map(|d| d.to_resource()))))
+            };
             let mut reqs = vec![target];
             reqs.push(gen_request(&mut r, &rules));
             for q in reqs {
@@ -150,6 +168,18 @@ fn spec(ctx: &mut Ctx) {
                 let nt = cats.count_ones() >= 2;
                 let d: Vec<&str> = diff(&a, &v).into_iter().filter(|f| matches!(*f, "matched" | "important" | "exception")).collect();
                 let h = fnv(&format!("{:?}|{:?}|{}|{}|{}", rules, tags, q.url, q.source, q.rtype));
+                if let (true, Some((b, storage))) = (d.is_empty(), &live) {
+                    let a2 = crate::mon::c05::blocker_answer(b, storage, &rq);
+                    let d2: Vec<&str> = diff(&a2, &v).into_iter().filter(|f| matches!(*f, "matched" | "important" | "exception")).collect();
+                    if !d2.is_empty() {
+                        evs.push((
+                            Some(format!("C04:precedence:incremental:{}", d2.join("+"))),
+                            nt,
+                            h,
+                            json!({"rules_added_one_at_a_time": rules, "tags": tags, "url": q.url, "source": q.source, "type": q.rtype, "blocker": a2.to_json(), "oracle": verdict_json(&v)}),
+                        ));
+                    }
+                }
                 if d.is_empty() {
                     // the same precedence through the multi-engine entry point
                     for (prev, force) in [(true, false), (true, true), (false, true)] {
